@@ -36,6 +36,13 @@ def run(tier, seed):
         v.merge_counters(cnt)
     for s in out['samples']:
         v.sample(s)
+    # the filter posterior (blocks [population | sigma | individuals | noise], one or two observables): the shared run of
+    # module FilterPosterior (see C13), judged on its chain-formatting clause
+    from . import check_c13
+    fp = cached('filterposterior', tier, seed, lambda: check_c13._compute(tier, seed))
+    for fails, cnt in fp['results']:
+        v.failures([f for f in fails if f['clause'] == 'IO_ExactlyOnce'])
+        v.count('filterposterior_chains_formatted', cnt.get('chains_formatted', 0))
     nt = v.counters.get('nontrivial', 0) or sum(1 for _ in out['results'])
     if v.counters.get('readbacks', 0) == 0 or v.counters.get('evaluations', 0) == 0:
         v.vacuous('vacuous run')
@@ -53,7 +60,13 @@ def run(tier, seed):
 def replay(path):
     from . import replay_inferenceio
     rep = json.load(open(path))
-    fails, _ = replay_inferenceio.replay_case((rep['case']['config'], rep['seed']))
+    if 'nsamples' in rep['case']['config']:          # a configuration of module FilterPosterior (shared run)
+        from . import replay_filterposterior
+        fails, _ = replay_filterposterior.replay_case((rep['case']['config'], rep['seed']))
+        v = Verdict(PROP, 'quick', rep['seed'])
+        fails = [f for f in fails if f['clause'] == 'IO_ExactlyOnce' and v.failure(f)]
+    else:
+        fails, _ = replay_inferenceio.replay_case((rep['case']['config'], rep['seed']))
     for f in fails:
         print('VIOLATION property=%s replay=%s' % (PROP, path))
         print('  clause=%s manifestation=%s detail=%s' % (f['clause'], f['manifestation'], str(f['detail'])[:400]))
